@@ -471,6 +471,13 @@ def expand_fn(repo, d, log, force_stub=()):
         degraded.append("ghost text adapted to renamed locals: " + ", ".join(f"{a}->{b}" for a, b in _tls.renames.items()))
     if _record_anchors is not None:
         _record_anchors.setdefault(what, {})["__locals__"] = it.get("locals", [])
+        _record_anchors.setdefault(what, {})["__loops__"] = [lp["kind"] for lp in it.get("loops", [])]
+    rec_loops = getattr(_tls, "anchor_map", {}).get(what, {}).get("__loops__")
+    if rec_loops is not None and rec_loops != [lp["kind"] for lp in it.get("loops", [])] and not stub \
+            and any(sec_["head"].lstrip("?").split()[0].rstrip(":") in ("loop", "loopbody", "beforeloop", "afterloop", "desugar_for") for sec_ in d["sections"]):
+        # invariants are attached to loops by ordinal: when the loops of the function are not the ones recorded on the pristine tree
+        # (a `while` rewritten as `loop`, a loop added or removed) a failing invariant says nothing about the property
+        degraded.append(f"loop structure changed: recorded {rec_loops}, now {[lp['kind'] for lp in it.get('loops', [])]}")
     for sec_no, sec in enumerate(d["sections"]):
         head = sec["head"]
         optional = head.startswith("?")
